@@ -30,7 +30,8 @@ CHECK = {
         expected_probes=["probe_must_close_cell", "probe_chain_triggered_force_close", "probe_user_force_close", "probe_close_local", "probe_close_remote",
                          "probe_close_remote-pending", "probe_close_breach", "probe_close_after_broadcast", "probe_confirmed_with_htlc_outputs",
                          "probe_offered_dust_on_confirmed", "probe_offered_only_on_unconfirmed", "probe_received_dust_on_confirmed",
-                         "probe_unclaimable_received_past_cutoff_no_close", "probe_preimage_learned"],
+                         "probe_unclaimable_received_past_cutoff_no_close", "probe_preimage_learned",
+                         "probe_breach_offered_on_peer_commitment", "probe_breach_offered_only_on_peer_pending_commitment"],
         real_vs_stub=C12_STUB, assumptions=C12_ASSUME,
         simulated_time="block heights are simulator events; the synctest fake clock covers uptime vs grace period",
         determinism="actor engine in a synctest bubble, one stimulus at a time to quiescence; effects are canonicalised (sorted per stimulus) before hashing",
@@ -46,7 +47,8 @@ TEXT = {
                            "the time that block is processed; (must not close) no force close while nothing is past its cut-off and nobody asked, in particular never for an unclaimable "
                            "received HTLC; after a commitment confirms: exactly one resolver of the right kind per HTLC output and none for anything else; offered HTLCs that are dust "
                            "there or only on a non-confirmed commitment (preimage unknown) are failed back exactly once over the whole run; never a fail-back for an HTLC that has an "
-                           "output on the confirmed commitment; received dust gets exactly one final 'failed' outcome and nothing else.",
+                           "output on the confirmed commitment; received dust gets exactly one final 'failed' outcome and nothing else; when a revoked commitment confirms (breach) every "
+                           "offered HTLC on the peer's current or pending commitment whose preimage is unknown is failed back upstream.",
                 level_note="Trusted: synctest quiescence; the simulator's HTLC-set model; stubs for chain/sweeper/switch. Known findings (open, see known_findings.json): dust fail-backs "
                            "are decided only in StateDefault, which is wrong when another commitment than the broadcast one confirms (3 signatures)."),
 }
